@@ -21,6 +21,10 @@ CLAIMED = {
          T + "exact ledger and share-model oracle around every slash, same-bucket packing bias"),
  "C08": ("captured x/staking log lines and recovered panics for every slash, rebalance flag and completeness against the models, plus a totality probe (BeforeValidatorSlashed for every validator with rotating fractions on a discarded branch) after every step of every run",
          T + "hook totality probe on discarded branches in every reachable state"),
+ "C09": ("every end-of-block is compared with the stated take-rate rule: fires iff a whole interval elapsed, floor(T(1-r)^n) with interval acceptance for the 18-digit Power error, exact custody->fee-collector transfer, clock advance by n intervals, proportional shrink of every position, no charge in warm-up or at rate zero, never to zero, and no retroactive charge of later deposits; block gaps are aimed at the claim boundary and include multi-interval halts and dust-only periods",
+         T + "closed-form take-rate reference model at every end-of-block, boundary-aimed clock"),
+ "C10": ("after every end-of-block of a block in which alliance stake, native stake, weights, a slash or a bond status changed, each bonded validator's alliance-minted stake is compared with the target recomputed from the post-state (2 base units, plus the module's integer mis-measurement of native stake where exchange rates differ from 1); non-bonded validators must not be adjusted",
+         T + "fixed-point target recomputation after every triggering block"),
  "C15": ("value moved, custody/staked total/user balances, the three redelegation stores cross-checked against an exact ledger in both directions after every step, onward-hop probes while pending and right after maturity, block gaps aimed at the completion instant",
          T + "reference ledger for the three redelegation stores plus hop probes"),
  "C17": ("the real module-manager EndBlocker runs after every block of every run with governance parameters drawn from everything the handlers accept, dust-only and drained assets, jailed/removed validators, halts of hours to months; an error or panic inside x/alliance is a violation",
